@@ -9,6 +9,9 @@ import (
 )
 
 // mergeCmd represents the merge command
+// compared tree file (own variable: the shared one ends up with the default "none" of other commands)
+var mergeCompTree string
+
 var mergeCmd = &cobra.Command{
 	Use:   "merge",
 	Short: "Merges two rooted trees",
@@ -34,7 +37,7 @@ Edges connecting new root with old roots have length of 1.0.
 			io.LogError(err)
 			return
 		}
-		if comptree, err = readTree(intree2file); err != nil {
+		if comptree, err = readTree(mergeCompTree); err != nil {
 			io.LogError(err)
 			return
 		}
@@ -61,6 +64,6 @@ Edges connecting new root with old roots have length of 1.0.
 func init() {
 	RootCmd.AddCommand(mergeCmd)
 	mergeCmd.PersistentFlags().StringVarP(&intreefile, "reftree", "i", "stdin", "Reference tree input file")
-	mergeCmd.PersistentFlags().StringVarP(&intree2file, "compared", "c", "stdin", "Compared tree input file")
+	mergeCmd.PersistentFlags().StringVarP(&mergeCompTree, "compared", "c", "stdin", "Compared tree input file")
 	mergeCmd.PersistentFlags().StringVarP(&outtreefile, "output", "o", "stdout", "Merged tree output file")
 }
